@@ -93,7 +93,7 @@ def streams(seed, tier):
         vcheck.die("registered and modelled instructions without a line in the specification tables: %s" % missing_spec)
     safe = [x for x in names if x not in stepgen.UNSAFE and x not in stepgen.RANDOM and x not in stepgen.ALLOCATING]
     todo = [n for n in names if n in modelled]
-    fillings = 4
+    fillings = 4 if tier == "quick" else 12
     lack = []
     nolack = []
     for nm in todo:
@@ -107,7 +107,7 @@ def streams(seed, tier):
                   "(bystander stacks, bindings, graph stack, input/output queues non-empty; flags random), both profiles at random; "
                   "instructions that need nothing (no lacking state exists): %s; skipped, not modelled yet: %s"
                   % (len(todo), len(names), fillings, nolack, unmodelled))]
-    per = {"quick": 12, "thorough": 150, "search": 150}[tier]
+    per = {"quick": 40, "thorough": 300, "search": 300}[tier]
     fired = []
     skipped_b = sorted(set(unmodelled) | set(n for n in todo if n in stepgen.UNSAFE))
     for nm in todo:
